@@ -271,7 +271,7 @@ class Cmp:
         self.pending = {}        # key -> (reason, replay) first example of a modelled defect
         self.counts = {}
 
-    def diff(self, name, mode, cases, a, b, monitor, max_report=3, refine=None):
+    def diff(self, name, mode, cases, a, b, monitor, max_report=3, refine=None, search=None):
         chk = self.chk
         if len(a) != len(cases) or len(b) != len(cases):
             chk.violation("%s: harness/model produced %d/%d lines for %d cases" % (name, len(a), len(b), len(cases)),
@@ -290,6 +290,10 @@ class Cmp:
                         if got:
                             rmode, c, x, y, rmon = got
                     r = rmon(c, x) if rmon else None
+                    if r is None and search:         # no verdict on this input: look at its neighbours
+                        got = search(rmode, c)
+                        if got:
+                            rmode, c, x, y, r = got
                     reason = r[1] if r else None
                     chk.violation("%s: implementation and model disagree%s" % (name, (": " + reason) if reason else ""),
                                   {"kind": "correspondence", "obligation": name, "mode": rmode, "case": c,
@@ -363,6 +367,69 @@ def mon_u8blk(case, line):
     return None
 
 
+def split_labels(cps, seps):
+    out, cur = [], []
+    for c in cps:
+        if c in seps:
+            out.append(cur)
+            cur = []
+        else:
+            cur.append(c)
+    out.append(cur)
+    return out
+
+
+def utf8_all(bs):
+    """code points of a well-formed string, else None"""
+    cps, i = [], 0
+    while i < len(bs):
+        r = utf8_first(bs[i:i + 4])
+        if r is None:
+            return None
+        cps.append(r[0])
+        i += r[1]
+    return cps
+
+
+def idna_labels_verdict(bs, cap, rc, buf):
+    """Verdict on one successful call (rc >= 0), label by label, from the input, the destination size and
+    the destination bytes alone: NUL-terminated inside the buffer, as many labels as the input has, a label
+    with a non-ASCII code point -> "xn--" + RFC 3492 encoding, an all-ASCII label unchanged."""
+    hx = hexs(bs)
+    if rc > cap or rc < 1 or len(buf) < rc or buf[rc - 1] != 0:
+        return "uv__idna_toascii(%s, cap %d) = %d but the destination is not NUL-terminated at %d (%s)" % (
+            hx, cap, rc, rc - 1, hexs(buf))
+    if len(buf) != rc:
+        return "uv__idna_toascii(%s, cap %d) = %d but %d bytes were stored (%s)" % (hx, cap, rc, len(buf), hexs(buf))
+    cps = utf8_all(bs)
+    if cps is None:
+        return "ill-formed UTF-8 accepted: uv__idna_toascii(%s) = %d \"%s\"" % (
+            hx, rc, "".join(chr(c) for c in buf[:-1]))
+    inl = split_labels(cps, DOTS)
+    outl = split_labels(buf[:rc - 1], (0x2E,))
+    # an ASCII label may itself not contain '.', so the label counts must agree
+    if len(inl) != len(outl):
+        return "uv__idna_toascii(%s) = \"%s\": %d labels in, %d labels out" % (
+            hx, "".join(chr(c) for c in buf[:-1]), len(inl), len(outl))
+    for k, (li, lo) in enumerate(zip(inl, outl)):
+        txt = "".join(chr(c) for c in lo)
+        if any(c >= 0x80 for c in li):
+            if lo[:4] != list(b"xn--"):
+                return "uv__idna_toascii(%s, cap %d) = %d \"%s\": label %d has a non-ASCII code point but its " \
+                    "output \"%s\" does not start with \"xn--\"" % (
+                        hx, cap, rc, "".join(chr(c) for c in buf[:-1]), k, txt)
+            try:
+                want = punycode_encode(li)
+            except Overflow:
+                return "uv__idna_toascii(%s) converted label %d whose deltas overflow 32 bits" % (hx, k)
+            if lo[4:] != want:
+                return "uv__idna_toascii(%s): label %d is \"%s\", RFC 3492 gives \"xn--%s\"" % (
+                    hx, k, txt, "".join(chr(c) for c in want))
+        elif lo != li:
+            return "uv__idna_toascii(%s): all-ASCII label %d came out as \"%s\"" % (hx, k, txt)
+    return None
+
+
 def mon_idna(case, line):
     cap, hx = case.split()
     cap, bs = int(cap), unhex(hx)
@@ -370,11 +437,19 @@ def mon_idna(case, line):
     rc, out, g = int(f[0]), unhex(f[1]), f[2]
     if g != "g0":
         return None, "uv__idna_toascii wrote outside the destination (cap %d, input %s)" % (cap, hx)
+    if rc >= 0:
+        v = idna_labels_verdict(bs, cap, rc, out)
+        if v:
+            return None, v
     want_rc, want = toascii_ref(bs, cap)
-    if rc >= 0 and not wellformed_utf8(bs):
-        return None, "ill-formed UTF-8 accepted: uv__idna_toascii(%s) = %d \"%s\"" % (
-            hx, rc, "".join(chr(c) for c in out[:-1]))
     if rc != want_rc:
+        if want_rc >= 0:
+            return None, "uv__idna_toascii(%s, cap %d) = %d although the result (%d bytes with NUL) fits" % (
+                hx, cap, rc, want_rc)
+        if rc >= 0:
+            return None, "uv__idna_toascii(%s, cap %d) = %d \"%s\": must fail with %d (the full result does " \
+                "not fit / is not defined), not return a shortened or altered name" % (
+                    hx, cap, rc, "".join(chr(c) for c in out[:-1]), want_rc)
         return None, "uv__idna_toascii(%s, cap %d) = %d, reference says %d" % (hx, cap, rc, want_rc)
     if rc >= 0 and out != want:
         return None, "uv__idna_toascii(%s) wrote %s, RFC 3492 reference %s" % (hx, hexs(out), hexs(want))
@@ -528,6 +603,32 @@ def pick_cap(rng, bs):
     return rng.randint(0, need + 2)
 
 
+def idna_cap_sweep(thorough):
+    """Inputs with a non-ASCII label whose Punycode body is short (1-3 digits, some longer), last or in the
+    middle, after ASCII labels of several lengths: every destination size from 0 to the full length + 2, i.e.
+    every number of bytes (0..4 and more) left at the moment the "xn--" prefix is due."""
+    asc = lambda n: [0x61 + (i * 7) % 26 for i in range(n)]
+    long_pre = []                      # 253 bytes of ASCII labels, the last one ending in '.'
+    for n in (63, 63, 63, 60):
+        long_pre += asc(n) + [0x2E]
+    pres = [[], asc(1) + [0x2E], asc(2) + [0x2E] + asc(2) + [0x2E], asc(5) + [0x3002], [0x2E], long_pre]
+    labs = [[0x80], [0x81], [0xA1], [0xE9], [0xFF], [0x100], [0x3B1], [0x61, 0xE9], [0x4E2D], [0x1F4A9],
+            [0xA1, 0xA1]]
+    sufs = [[], [0x2E], [0x2E] + asc(3)]
+    out = []
+    for pre in pres:
+        for lab in labs:
+            for suf in sufs:
+                if len(pre) > 100 and (suf or (not thorough and lab not in ([0x80], [0xA1], [0x100], [0x61, 0xE9]))):
+                    continue
+                bs = sum((utf8_encode(c) for c in pre + lab + suf), [])
+                _, ref = toascii_ref(bs, 10 ** 6)
+                full = len(ref)
+                caps = range(0, full + 3) if full < 40 else list(range(full - 12, full + 3)) + [256]
+                out += ["%d %s" % (cap, hexs(bs)) for cap in caps]
+    return out
+
+
 def idna_cases(rng, thorough):
     blocks = []
     step = 4096
@@ -544,6 +645,7 @@ def idna_cases(rng, thorough):
     blocks = [b for k in range(vf.JOBS) for b in blocks[k::vf.JOBS]]     # spread the slow ones over the shards
     lines = []
     lines += corpus_lines("idna.txt")
+    lines += idna_cap_sweep(thorough)
     scal = set(BOUND_SCALARS) | {c + d for c in BOUND_SCALARS for d in (-1, 1)}
     scal |= set(range(0, 0x110000, 7 if thorough else 53))
     for cp in sorted(c for c in scal if 0 <= c < 0x110000 and not 0xD800 <= c <= 0xDFFF):
@@ -667,13 +769,28 @@ def run(chk, lib, thorough):
             return "idna", case, a[0], b[0], mon_idna
         return None
 
-    def both(name, mode, cases, monitor, shards=vf.JOBS, refine=None):
+    def search_idna(mode, case):
+        """the same host name with every destination size 0..full+2: first one the monitor rejects"""
+        if mode != "idna":
+            return None
+        bs = unhex(case.split()[1])
+        _, ref = toascii_ref(bs, 10 ** 6)
+        full = len(ref) if ref else len(bs) + 8
+        cases = ["%d %s" % (cap, hexs(bs)) for cap in range(0, full + 3)]
+        a, b = pair("idna", cases)
+        for c, x, y in zip(cases, a, b):
+            r = mon_idna(c, x)
+            if r:
+                return "idna", c, x, y, r
+        return None
+
+    def both(name, mode, cases, monitor, shards=vf.JOBS, refine=None, search=None):
         a, rc, err = vf.run_lines([h, mode], cases, shards=shards)
         b, rc2, err2 = vf.run_lines([model, mode], cases, shards=shards)
         if rc != 0:
             chk.violation("%s: the harness on the real library died (exit %s): %s" % (name, rc, (err or "")[-300:]),
                           {"kind": "crash", "obligation": name, "mode": mode}, found_input=False)
-        cmp.diff(name, mode, cases, a, b, monitor, refine=refine)
+        cmp.diff(name, mode, cases, a, b, monitor, refine=refine, search=search)
         return a
 
     # (a) UTF-8 decoder
@@ -688,8 +805,8 @@ def run(chk, lib, thorough):
     # (b) IDNA
     blocks, lines = idna_cases(chk.rng, thorough)
     both("uv__idna_toascii = Model/Idna.v idna_toascii (all scalar values, blocks)", "idnablk", blocks, None,
-         refine=refine_idna)
-    a = both("uv__idna_toascii = Model/Idna.v idna_toascii", "idna", lines, mon_idna)
+         refine=refine_idna, search=search_idna)
+    a = both("uv__idna_toascii = Model/Idna.v idna_toascii", "idna", lines, mon_idna, search=search_idna)
     chk.cov["idna_scalars_enumerated_alone"] = sum(
         int(c.split()[1]) - int(c.split()[0]) for c in blocks if c.endswith(" 32 - -"))
     chk.cov["idna_e2big_seen"] = sum(1 for x in a if x.startswith("-7 "))
